@@ -13,8 +13,14 @@ C01 — Rendered image equals the ideal perspective-correct image.
   `Retro.Props.C01.Ideal`   : the pixel theorems — `drawTris_pixel_ideal`, `drawTris_pixel_untouched`,
                               `render_pixel_ideal`, `render_pixel_ideal_unclipped`, `render_pixel_untouched`,
                               `render_pixel_c01` (the property in one statement over the input triangles)
+  `Retro.Props.C01.Visible*`: the link to the VISIBLE PART of the input triangle (on C03 `Cover*`): `det3_bary`,
+                              `piece_backface_iff` / `pieces_culled_together` (all pieces of one input triangle are culled or kept
+                              together, by the side of its plane the eye is on), `edgeFn_bary`, `visible_strict_inside_piece`,
+                              `inside_piece_visible`, `render_pixel_untouched_visible`, `render_pixel_c01_visible`
 -/
 import Retro.Props.C01.Persp
 import Retro.Props.C01.Compose
 import Retro.Props.C01.IdealFrag
 import Retro.Props.C01.Ideal
+import Retro.Props.C01.VisibleRender
+import Retro.Props.C01.VisibleEx
